@@ -50,6 +50,23 @@ def gen_decl(rng: random.Random, kind: str, name: str):
     return members, values
 
 
+def fixed_decls():
+    """Declarations every run covers whatever the seed: the numbering rule after each kind of explicit value (independent reference values
+    worked out here by the C rule: enum previous + 1, flag next higher power of two)."""
+    out = []
+    for v in (3, 5, 6, 7, 12, 0x30, 0x41, 0x7F):        # a multi-bit flag value, then implicit members
+        hi = 1 << v.bit_length()
+        out.append(("flag", [("K_A", str(v)), ("K_B", None), ("K_C", None)], {"K_A": v, "K_B": hi, "K_C": hi * 2}))
+    out.append(("flag", [("K_A", None), ("K_B", None), ("K_C", "K_A | K_B"), ("K_D", None)], {"K_A": 1, "K_B": 2, "K_C": 3, "K_D": 4}))
+    out.append(("flag", [("K_A", "4"), ("K_B", "K_A | 1"), ("K_C", None)], {"K_A": 4, "K_B": 5, "K_C": 8}))
+    out.append(("flag", [("K_A", "0x10"), ("K_B", None), ("K_C", "K_B << 1"), ("K_D", None)], {"K_A": 16, "K_B": 32, "K_C": 64, "K_D": 128}))
+    for v in (0, 1, 5, 100, 126):                         # enum: previous + 1 after explicit values, expressions, duplicates and a step back
+        out.append(("enum", [("K_A", str(v)), ("K_B", None), ("K_C", None)], {"K_A": v, "K_B": v + 1, "K_C": v + 2}))
+    out.append(("enum", [("K_A", None), ("K_B", "K_A + 5"), ("K_C", None), ("K_D", "K_A"), ("K_E", None)], {"K_A": 0, "K_B": 5, "K_C": 6, "K_D": 0, "K_E": 1}))
+    out.append(("enum", [("K_A", "7"), ("K_B", "K_A * 2"), ("K_C", None), ("K_D", "3"), ("K_E", None)], {"K_A": 7, "K_B": 14, "K_C": 15, "K_D": 3, "K_E": 4}))
+    return out
+
+
 def decl_text(kind, name, base, members) -> str:
     body = ", ".join(m if e is None else f"{m} = {e}" for m, e in members)
     return f"{kind} {name}" + (f" : {base}" if base else "") + f" {{ {body} }};"
@@ -63,10 +80,17 @@ def check(run: Run) -> None:
     items, explained = [], set()
     num_checks, num_meta = [], []
 
-    for i in range(400 if thorough else 90):
+    fixed = fixed_decls()
+    for i in range((400 if thorough else 90) + len(fixed)):
         kind = "flag" if i % 3 == 0 else "enum"
+        if i < len(fixed):
+            kind = fixed[i][0]
         base = rng.choice([b for b in BASES if not (kind == "flag" and BASES[b][1])] + [None])
         members, ref = gen_decl(rng, kind, "K")
+        if i < len(fixed):
+            members, ref = fixed[i][1], fixed[i][2]
+            if base is not None and max(ref.values()) >= (1 << (BASES[base][0] * 8 - (1 if BASES[base][1] else 0))):
+                base = "uint32"
         if not members:
             continue
         other, _ = gen_decl(rng, "enum", "O")
